@@ -31,12 +31,13 @@ RULE = ("seeded plans: 85% exchange plans - three programs (every ordering/repet
         "prepend/append arguments incl. empty and binary, each termination kind, 1-3 build blocks, static headers/"
         "parameters) compiled to the binary setting encoding, 4-10 messages with payloads of 0-4096 bytes and arbitrary "
         "initial requests; library transform -> reference decode, reference encode (both base64url padding conventions) "
-        "-> library recover, library transform -> library recover; 15% full World S sessions. non-trivial = program has "
+        "-> library recover, library transform -> library recover; then messages with a missing data header/parameter are shown "
+        "to the transform and the intact ones recovered again; 15% full World S sessions. non-trivial = program has "
         ">= 2 encoders or a non-body termination; distinct = distinct digest")
 ASSUMPTIONS = [
     "programs are well-formed: every build block ends in a termination, server output terminates with print",
     "base64url padding is accepted either way by the reference decoder (Cobalt Strike strips it, the library keeps it)",
-    "header/parameter names used by placements and static decorations are distinct within a message",
+    "header/parameter names used by placements and static decorations are distinct byte strings within a message (a data header may be a case twin of a static header)",
     "the library's server-side transform knows only affix lengths (recover encoding), so its output is decoded with X-filled affixes",
     "trusted: the reference codec (written from the Malleable C2 documentation, anchored to captured traffic)",
 ]
